@@ -464,7 +464,27 @@ func ruleAccNonEmpty(p *core.Program) []core.Obligation {
 				if iff == nil {
 					continue
 				}
-				bo, ok := iff.Cond.(*ssa.BinOp)
+				cond, negated := core.StripNot(iff.Cond)
+				// the outcome of the length test kept in a field or local first (t.hasValue = len(..) != 0; if t.hasValue)
+				if ld, isLoad := cond.(*ssa.UnOp); isLoad && ld.Op == token.MUL {
+					var last *ssa.Store
+					core.EachInstr(fn, func(_ *ssa.BasicBlock, _ int, x ssa.Instruction) {
+						st, ok := x.(*ssa.Store)
+						if !ok || !(st.Addr == ld.X || core.SameExpr(st.Addr, ld.X)) || !core.InstrDominates(st, ld) {
+							return
+						}
+						if last == nil || core.InstrDominates(last, st) {
+							last = st
+						}
+					})
+					if last != nil {
+						cond = last.Val
+						if c2, n2 := core.StripNot(cond); n2 {
+							cond, negated = c2, !negated
+						}
+					}
+				}
+				bo, ok := cond.(*ssa.BinOp)
 				if !ok {
 					continue
 				}
@@ -498,6 +518,9 @@ func ruleAccNonEmpty(p *core.Program) []core.Obligation {
 					succ = 1
 				case token.NEQ, token.GTR:
 					succ = 0
+				}
+				if succ >= 0 && negated {
+					succ = 1 - succ
 				}
 				if succ >= 0 && core.BranchDominates(gb, succ, b) {
 					guarded = true
